@@ -11,6 +11,12 @@
 (*             (arg.es / arg.via select the typed overload or aligned_allocator<T>::allocate; thrown = "" or the *)
 (*             exception allocate threw - bad_alloc counts as a null answer; arg.t = the calling thread, which    *)
 (*             the contract does not depend on)                                *)
+(*             arg.via = "alloc": aligned_allocator<Elem<es>>::allocate(size / es); arg.via = "rebind": the same call  *)
+(*             on std::allocator_traits<aligned_allocator<Elem<4>>>::rebind_alloc<Elem<es>> (the allocator a container *)
+(*             derives for ANOTHER type: es = 1, 63, 65, 72, 96, 127, 129, 160, 200 ...).  Both are judged by the     *)
+(*             alignedMalloc contract with align = 64 whatever es is, and - being requests to the allocator, whose    *)
+(*             small requests must succeed (AllocGuard!SmallRequest) - may not fail below SmallBytes;                 *)
+(*             obs.route = the route the driver took ("malloc" / "alloc" / "rebind")                                  *)
 (*   Burst     arg {n, size, align}      obs {ps, nulls, bad}   ps sorted by address *)
 (*   Free      arg {h}                   obs {skipped, p}   p = address passed to alignedFree *)
 (*   Check     arg {h}                   obs {skipped, bad} bad = bytes differing from the pattern *)
@@ -42,11 +48,18 @@ Line == TraceLines[l]
 Slotted == {"Alloc", "Free", "Check"}
 Skipped(ln) == ln.a \in Slotted /\ ln.obs.skipped
 
+\* a request of at most AllocGuard!SmallBytes = 256 * 2^16 bytes (and not 0) made through an allocator must be answered
+SmallL(sz)    == sz[1] = 0 /\ sz[2] = 0 /\ (sz[3] < 256 \/ (sz[3] = 256 /\ sz[4] = 0)) /\ ~LIsZero(sz)
+ViaAllocator(ln) == "via" \in DOMAIN ln.arg /\ ln.obs.route \in {"alloc", "rebind"}
+RouteOK(ln)   == ln.obs.route = (IF "via" \in DOMAIN ln.arg /\ "es" \in DOMAIN ln.arg THEN ln.arg.via ELSE "malloc")
+AnsweredOK(ln) == ViaAllocator(ln) /\ SmallL(ln.arg.size) => ~LIsNull(ln.obs.p) /\ ln.arg.align = 64
+
 \* the recorded numbers must be well-formed limb sequences (otherwise the recording is broken, not the code)
 WellFormed(ln) ==
   /\ (ln.a \in Slotted => ln.arg.h \in Handles)
   /\ (ln.a = "Alloc" => L!IsNumL(ln.arg.size) /\ ln.arg.align \in {1, 2, 4, 8, 16, 32, 64, 128, 256, 512, 1024, 2048, 4096})
   /\ (ln.a \in {"Alloc", "Free"} /\ ~Skipped(ln) => L!IsNumL(ln.obs.p))
+  /\ (ln.a = "Alloc" /\ ~Skipped(ln) => RouteOK(ln))      \* the driver took the route the plan names
   /\ (ln.a = "Burst" => L!IsNumL(ln.arg.size) /\ \A i \in 1..Len(ln.obs.ps) : L!IsNumL(ln.obs.ps[i]))
 
 \* requests made through aligned_allocator<T>::allocate are all within max_size(): the only exception the property
@@ -55,7 +68,7 @@ ThrownOK(ln) == ln.obs.thrown = "" \/ (ln.obs.thrown = "bad_alloc" /\ LIsNull(ln
 
 Ok(ln) ==
   CASE Skipped(ln)        -> SkipOK(ln.a, ln.arg.h)
-    [] ln.a = "Alloc"     -> AllocOK(ln.arg.h, ln.arg.size, ln.arg.align, ln.obs.p) /\ ThrownOK(ln)
+    [] ln.a = "Alloc"     -> AllocOK(ln.arg.h, ln.arg.size, ln.arg.align, ln.obs.p) /\ ThrownOK(ln) /\ AnsweredOK(ln)
     [] ln.a = "Free"      -> FreeOK(ln.arg.h, ln.obs.p)
     [] ln.a = "Check"     -> CheckOK(ln.arg.h, ln.obs.bad)
     [] ln.a = "CheckAll"  -> CheckAllOK(ln.obs.blocks)
@@ -66,7 +79,9 @@ Ok(ln) ==
 
 Why(ln) ==
   CASE Skipped(ln)        -> "client-skipped-a-legal-call"
-    [] ln.a = "Alloc"     -> IF ThrownOK(ln) THEN AllocWhy(ln.arg.h, ln.arg.size, ln.arg.align, ln.obs.p) ELSE "threw-" \o ln.obs.thrown
+    [] ln.a = "Alloc"     -> IF ~ThrownOK(ln) THEN "threw-" \o ln.obs.thrown
+                             ELSE IF ~AnsweredOK(ln) THEN "small-request-failed"
+                             ELSE AllocWhy(ln.arg.h, ln.arg.size, ln.arg.align, ln.obs.p)
     [] ln.a = "Free"      -> FreeWhy(ln.arg.h, ln.obs.p)
     [] ln.a = "Check"     -> CheckWhy(ln.arg.h, ln.obs.bad)
     [] ln.a = "CheckAll"  -> CheckAllWhy(ln.obs.blocks)
